@@ -125,6 +125,10 @@ type outcome struct {
 	rterr  string
 }
 
+// norun: only check + compile (used under the race detector, whose checkptr instrumentation rejects the
+// VM's unsafe stack-pointer arithmetic as soon as a program is run)
+var norun bool
+
 func runOnce(name, src string, limit, procs int, load bool) outcome {
 	old := runtime.GOMAXPROCS(procs)
 	defer runtime.GOMAXPROCS(old)
@@ -153,7 +157,7 @@ func runOnce(name, src string, limit, procs int, load bool) outcome {
 	sort.Strings(ds)
 	o.diags = strings.Join(ds, " ;; ")
 	o.failed = bc == nil || (dl != nil && dl.IsFailure())
-	if o.failed {
+	if o.failed || norun {
 		return o
 	}
 	var buf bytes.Buffer
@@ -203,6 +207,9 @@ func main() {
 		}
 		if v, ok := strings.CutPrefix(kv, "reps="); ok {
 			reps, _ = strconv.Atoi(v)
+		}
+		if kv == "norun=1" {
+			norun = true
 		}
 	}
 	limits := []int{2, 4, 16, 100, 1}
